@@ -459,6 +459,91 @@ func C12(tier Tier) int {
 			rt.Case(fmt.Sprintf("rt-call:name%d:args%d", len(name), len(al)))
 		}
 	}
+	// one builder instance used for several strings: every operation sequence up to the bound over
+	// {Func, Bytes, Clear (as a statement and chained), SetLast}, against a (function, elements) model
+	{
+		depth := 6
+		if tier.Thorough() {
+			depth = 8
+		}
+		const nOps = 8
+		var seq []int
+		var walk func()
+		walk = func() {
+			b := txDataBuilder.NewBuilder()
+			mfn, melems := "", []string{}
+			clears := 0
+			for _, o := range seq {
+				switch o {
+				case 0:
+					b.Func("f")
+					mfn = "f"
+				case 1:
+					b.Func("gh")
+					mfn = "gh"
+				case 2:
+					b.Bytes([]byte{})
+					melems = append(melems, "")
+				case 3:
+					b.Bytes([]byte{0x0a})
+					melems = append(melems, "0a")
+				case 4:
+					b.Bytes([]byte{0xff, 0})
+					melems = append(melems, "ff00")
+				case 5:
+					b.Clear() // documented use: resets the internal state of this builder
+					mfn, melems = "", []string{}
+					clears++
+				case 6:
+					b = b.Clear()
+					mfn, melems = "", []string{}
+					clears++
+				case 7:
+					b.SetLast("0b")
+					if len(melems) == 0 {
+						melems = []string{"0b"}
+					} else {
+						melems[len(melems)-1] = "0b"
+					}
+				}
+			}
+			want := mfn
+			var wantArgs [][]byte
+			for _, e := range melems {
+				want += "@" + e
+				d, _ := hex.DecodeString(e)
+				wantArgs = append(wantArgs, d)
+			}
+			got := b.ToString()
+			id := fmt.Sprintf("ops%v", seq)
+			if got != want || string(b.ToBytes()) != want {
+				rt.Fail(P, "roundtrip", "builder-sequence", fmt.Sprintf("one builder after the operations %v (0/1 Func, 2-4 Bytes, 5 Clear, 6 b=Clear, 7 SetLast) produces %q, the operations describe %q", seq, got, want), "case", id)
+			}
+			last := ""
+			if len(melems) > 0 {
+				last = melems[len(melems)-1]
+			}
+			if b.GetLast() != last {
+				rt.Fail(P, "roundtrip", "builder-sequence-last", fmt.Sprintf("after %v GetLast gives %q, expected %q", seq, b.GetLast(), last), "case", id)
+			}
+			if mfn != "" {
+				fn, args, err := c12Call.ParseData(got)
+				if err != nil || fn != mfn || !argsEqStrict(args, wantArgs) {
+					rt.Fail(P, "roundtrip", "builder-sequence-parse", fmt.Sprintf("after %v the builder's string %q parses to %q %x (%v), it was given %q %x", seq, got, fn, args, err, mfn, wantArgs), "case", id)
+				}
+			}
+			rt.Case(fmt.Sprintf("rt-builder-seq:len%d:clears%d", len(seq), clears))
+			if len(seq) == depth {
+				return
+			}
+			for o := 0; o < nOps; o++ {
+				seq = append(seq, o)
+				walk()
+				seq = seq[:len(seq)-1]
+			}
+		}
+		walk()
+	}
 	// typed builder elements
 	typed := txDataBuilder.NewBuilder().Func("f").Str("tok").Int(0).Int(255).Int64(1 << 40).BigInt(new(big.Int).Lsh(big.NewInt(1), 64)).Byte(0).Byte(0x40).Bool(true).Bool(false)
 	if fn, args, err := c12Call.ParseData(typed.ToString()); err != nil || fn != "f" || !argsEqStrict(args, [][]byte{[]byte("tok"), {}, {255}, {1, 0, 0, 0, 0, 0}, {1, 0, 0, 0, 0, 0, 0, 0, 0}, {0}, {0x40}, []byte("true"), []byte("false")}) {
